@@ -87,6 +87,13 @@ let shape st e =
 let shape_bool st e =
   if not (l4 st) || int_shaped e then e else ENot (ENot e)
 
+(* level 8: the right operand of == / != is int_shaped (fragment of compile_program_correct_F8) *)
+let eqne = function Eq0 | Ne -> true | _ -> false
+(* levels 7, 8: assigned names are bound by var x = <int_shaped> (fragment of compile_program_correct_F7 / F8) *)
+let shape7 st bt e = if st.level >= 7 then (if bt = TBool then shape_bool st e else shape st e) else e
+let shape8 st op e = if st.level >= 8 && eqne op then shape st e else e
+let shape_bool8 st e = if st.level >= 8 then shape_bool st e else e
+
 let is_fun_ty = function TFun _ -> true | _ -> false
 
 (* order of a function type; a value of function type t costs at most fbound t per application *)
@@ -322,7 +329,7 @@ and gen_funblock st env d r : item list =
       let x = fresh st in
       let e = gen_int st env (min d 1) in
       let isvar = kind env e <> KC && Rng.pct st.rng 80 in
-      [((if isvar then IVar (n_of_int x, e) else ILet (n_of_int x, e)), { n = x; t = TInt; var = isvar; ctr = false; cost = 0 })]
+      [((if isvar then IVar (n_of_int x, shape7 st TInt e) else ILet (n_of_int x, e)), { n = x; t = TInt; var = isvar; ctr = false; cost = 0 })]
     end else [] in
   let env0 = List.map snd pre @ env in
   let run, env1, post =
@@ -430,19 +437,20 @@ and gen_bool st env d : expr =
   let cmp () =
     let a = gen_int st env (d - 1) in let b = gen_int st env (d - 1) in
     let a = if is_lit a && is_lit b then ev (Rng.pick st.rng vi) else a in
-    EBin (Rng.pick st.rng [Lt0; Le; Gt0; Ge; Eq0; Ne], a, b) in
+    let op = Rng.pick st.rng [Lt0; Le; Gt0; Ge; Eq0; Ne] in EBin (op, a, shape8 st op b) in
   if d <= 0 then (if vb <> [] && Rng.bool st.rng then ev (Rng.pick st.rng vb) else cmp ())
   else
     Rng.weighted st.rng [
       40, (fun () -> cmp ());
       (if ctrs_of env <> [] then 8 else 0), (fun () ->
-          EBin (Rng.pick st.rng [Lt0; Le; Gt0; Ge; Eq0; Ne], ev (Rng.pick st.rng (ctrs_of env)), gen_int st env (d - 1)));
+          let b = gen_int st env (d - 1) in let a = ev (Rng.pick st.rng (ctrs_of env)) in
+          let op = Rng.pick st.rng [Lt0; Le; Gt0; Ge; Eq0; Ne] in EBin (op, a, shape8 st op b));
       (if vb <> [] then 15 else 0), (fun () -> ev (Rng.pick st.rng vb));
       10, (fun () -> ENot (gen_bool st env (d - 1)));
       6, (fun () ->
           let a = gen_bool st env (d - 1) in
           let b = if Rng.pct st.rng 30 then EBool (Rng.bool st.rng) else gen_bool st env (d - 1) in
-          if Rng.bool st.rng then EBin (Rng.pick st.rng [Eq0; Ne], a, b) else EBin (Rng.pick st.rng [Eq0; Ne], b, a));
+          if Rng.bool st.rng then EBin (Rng.pick st.rng [Eq0; Ne], a, shape_bool8 st b) else EBin (Rng.pick st.rng [Eq0; Ne], b, shape_bool8 st a));
       6, (fun () -> ECond (gen_bool st env (d - 1), gen_boolv st env (d - 1), gen_boolv st env (d - 1)));
       (if List.exists (fun v -> v.var) vb then 5 else 0), (fun () ->
           let v = Rng.pick st.rng (List.filter (fun v -> v.var) vb) in EAssign (ev v, shape_bool st (gen_boolv st env (d - 1))));
@@ -480,7 +488,7 @@ and gen_block st env t d n : item list =
             let e = gen_ty st env d bt in
             let x = name () in
             if kind env e = KC then ILet (n_of_int x, e) :: go (bind env x bt false) (x :: bound) (i + 1)
-            else IVar (n_of_int x, e) :: go (bind env x bt true) (x :: bound) (i + 1));
+            else IVar (n_of_int x, shape7 st bt e) :: go (bind env x bt true) (x :: bound) (i + 1));
         25, (fun () ->
             let vs = List.filter (fun v -> v.var && (v.t = TInt || v.t = TBool)) env in
             let e =
@@ -572,7 +580,7 @@ let gen_catches st params : (exn * item list) list * item list option =
 
 let gen_main st : fdef * int =
   let np = Rng.range st.rng 1 3 in
-  let params = List.init np (fun _ -> let x = fresh st in (x, Rng.pct st.rng 40)) in
+  let params = List.init np (fun _ -> let x = fresh st in (x, (let v = Rng.pct st.rng 40 in v && st.level < 7))) in
   let env = env_of params in
   let d = Rng.range st.rng 1 4 in
   st.acc <- 0; st.mult <- 1; st.limit <- 4000;
@@ -585,7 +593,7 @@ let gen_main st : fdef * int =
 (* a plain function: any body over its parameters, calling functions defined before it *)
 let gen_plain st name : fdef * finfo =
   let np = Rng.range st.rng 1 3 in
-  let params = List.init np (fun _ -> let x = fresh st in (x, Rng.pct st.rng 25)) in
+  let params = List.init np (fun _ -> let x = fresh st in (x, (let v = Rng.pct st.rng 25 in v && st.level < 7))) in
   st.acc <- 1; st.mult <- 1; st.limit <- 150; st.fuelv <- (if Rng.pct st.rng 30 then 1 else 0);
   let body = gen_block st (env_of params) TInt (Rng.range st.rng 1 3) (Rng.range st.rng 0 3) in
   let catches = gen_catches st params in
